@@ -159,6 +159,11 @@ impl World {
                 _ => {}
             }
         }
+        let dead_at_emit = |i: usize, n: u32| -> bool {
+            let emit = log.iter().position(|e| matches!(e, LogEv::Other { what, .. } if *what == format!("emit {n}")));
+            let dropped = log.iter().position(|e| matches!(e, LogEv::HandlerDropped { cid, .. } if cidx(cid) == Some(i)));
+            matches!((emit, dropped), (Some(e), Some(d)) if d < e)
+        };
         let ever_closed = |i: usize| self.closed_or_failed[i] || log.iter().any(|e| matches!(e, LogEv::Closed{cid,..} if cidx(cid)==Some(i)));
         let c2_established = log.iter().any(|e| matches!(e, LogEv::Established{cid,..} if cidx(cid)==Some(2)));
         for (n, target) in &self.emitted {
@@ -185,13 +190,16 @@ impl World {
                         if !cands.contains(r) {
                             return Err(format!("any-late-connection :: Any event {n} reached c{r}, connections established at emission were {cands:?}"));
                         }
-                    } else if cands_at_emit.contains_key(n) && !cands.is_empty() && cands.iter().all(|c| !ever_closed(*c)) {
-                        // Reading: the Swarm may hand an Any event to a candidate that is already
-                        // closing (its command channel still accepts it) and the event is then
-                        // dropped with that connection — "dropped only when the target connection
-                        // is closing or gone" permits this, so a missing Any event is a violation
-                        // only when *no* candidate was closed or failed during the run.
-                        return Err(format!("lost :: Any event {n} never delivered although all candidates {cands:?} stayed established"));
+                    } else if cands_at_emit.contains_key(n) && !cands.is_empty() && cands.iter().any(|c| !ever_closed(*c)) && cands.iter().filter(|c| ever_closed(**c)).all(|c| dead_at_emit(*c, *n)) {
+                        // Reading: the Swarm may hand an Any event to a candidate that is closing
+                        // but whose command channel still accepts it (close requested, task not
+                        // yet run): the event is then dropped with that connection — "dropped only
+                        // when the target connection is closing or gone" permits this. A candidate
+                        // whose task had ALREADY finished closing when the event was emitted
+                        // (handler dropped before the emission) cannot have swallowed it, so if
+                        // every closed candidate was already dead at emission and a healthy
+                        // candidate exists, the event must have been delivered.
+                        return Err(format!("lost :: Any event {n} never delivered although a candidate of {cands:?} stayed established and no candidate that was still alive at emission closed"));
                     } else if !cands_at_emit.contains_key(n) {
                         return Err(format!("not-emitted :: event {n} never taken from the behaviour at quiescence"));
                     }
